@@ -562,6 +562,89 @@ func c20RunLogin(b core.Batch, r *core.Recorder) {
 			}
 		}
 	}
+	// ---- near-miss passwords: only the exact password verifies, whatever its length
+	login := func(password string) c20resp {
+		body, _ := json.Marshal(map[string]string{"username": "admin", "password": password})
+		return s.do("POST", "/api/auth/login", "", string(body), nil)
+	}
+	for _, L := range []int{1, 8, 55, 56, 64, 71, 72, 73, 100, 128, 255, 256, 1000} {
+		id := fmt.Sprintf("near%d", L)
+		if !r.Case(id, L) {
+			continue
+		}
+		r.Eval(1)
+		bs := make([]byte, L)
+		for k := range bs {
+			bs[k] = "abcdefghijklmnopqrstuvwxyzABCDEFGHIJKLMNOPQRSTUVWXYZ0123456789"[rng.IntN(62)]
+		}
+		pwd := string(bs)
+		if err := c20setHash(c20hash(pwd, c20salt16)); err != nil {
+			r.NotJudged("cannot-set-hash")
+			continue
+		}
+		cs := map[string]any{"id": id, "password_length": L}
+		if resp := login(pwd); resp.Status != 200 {
+			r.Violation("C20", "C20:login:right-password-refused:length", fmt.Sprintf("the %d-byte password itself was refused (%d)", L, resp.Status), cs, nil)
+			continue
+		}
+		wrong := map[string]string{"one-byte-longer": pwd + "x", "trailing-blank": pwd + " ", "trailing-nul": pwd + "\x00", "last-byte-changed": pwd[:L-1] + "#", "case-of-last-letter": pwd[:L-1] + strings.ToUpper(strings.ToLower(pwd[L-1:])) + ""}
+		if L > 1 {
+			wrong["one-byte-shorter"] = pwd[:L-1]
+		}
+		for _, k := range []int{8, 55, 56, 64, 72, 128, 255} {
+			if L > k {
+				wrong[fmt.Sprintf("same-first-%d-bytes", k)] = pwd[:k] + strings.Repeat("Z", L-k)
+			}
+		}
+		for name, w := range wrong {
+			if w == pwd {
+				continue
+			}
+			resp := login(w)
+			r.Count("near_miss_passwords_tried", 1)
+			if resp.Status == 200 || resp.SetCookie != "" {
+				r.Violation("C20", "C20:login:near-miss-password-accepted:"+name, fmt.Sprintf("stored hash is for a %d-byte password; a different password (%s) was answered %d with cookie %q", L, name, resp.Status, resp.SetCookie), cs, nil)
+			}
+		}
+		r.Nontrivial("near-miss", L)
+	}
+	// ---- logins for one account at the same moment: each is judged on its own password
+	{
+		const m, t, p, l = 32768, 1, 1, 32 // a verification that takes some tens of milliseconds, as the real default does
+		pwd := "the right one"
+		h := argon2.IDKey([]byte(pwd), c20salt16, t, m, p, l)
+		c20setHash(fmt.Sprintf("$argon2id$v=19$m=%d,t=%d,p=%d,l=%d$%s$%s", m, t, p, l, base64.RawStdEncoding.EncodeToString(c20salt16), base64.RawStdEncoding.EncodeToString(h)))
+		for round, delay := range []time.Duration{0, time.Millisecond, 3 * time.Millisecond, 8 * time.Millisecond, 15 * time.Millisecond, 25 * time.Millisecond} {
+			id := fmt.Sprintf("conc%d", round)
+			if !r.Case(id, delay.String()) {
+				continue
+			}
+			r.Eval(1)
+			var wg sync.WaitGroup
+			var good c20resp
+			bad := make([]c20resp, 6)
+			wg.Add(1)
+			go func() { defer wg.Done(); good = login(pwd) }()
+			time.Sleep(delay)
+			for k := range bad {
+				wg.Add(1)
+				go func() { defer wg.Done(); bad[k] = login(fmt.Sprintf("a wrong one %d", k)) }()
+			}
+			wg.Wait()
+			cs := map[string]any{"id": id, "wrong_logins_start_after": delay.String()}
+			r.Count("concurrent_login_rounds", 1)
+			r.Nontrivial("concurrent-login", round)
+			if good.Status != 200 {
+				r.Violation("C20", "C20:login:right-password-refused:concurrent", fmt.Sprintf("the right password was refused (%d) while wrong-password logins for the same account were in progress", good.Status), cs, nil)
+			}
+			for k, resp := range bad {
+				if resp.Status == 200 || resp.SetCookie != "" {
+					r.Violation("C20", "C20:login:wrong-password-accepted:during-a-concurrent-right-login", fmt.Sprintf("wrong-password login %d, started %v after a right-password login for the same account, was answered %d with cookie %q", k, delay, resp.Status, resp.SetCookie), cs, nil)
+					break
+				}
+			}
+		}
+	}
 	r.Sample(map[string]any{"part": "login", "classes": len(cases), "what": "the admin row's password_hash is rewritten with each PHC string; then POST /api/auth/login with the fixed password"})
 }
 
@@ -713,7 +796,7 @@ func init() {
 		ID:    "C20",
 		Level: "exploration",
 		Rule: "routes: every registered path (from the API's own endpoint list) x 7 methods x 11 cookie classes {absent, random, malformed, empty, logged-out, expired by 1 ns / 1 s / 9 min / 1 h / 10 y, session id under another cookie name}: 401 (404/405 for unregistered method/path pairs), no change of config (values + file) or of the user row, an expired cookie presented twice is refused twice and its expiry is not moved; live-session controls. " +
-			"sessions: seeded histories over {login ok, login bad, login as a user that does not exist (with the right / the default / common passwords), logout, expire by 1 ns..1 h, age a live session to 30 s..50 min left, use} against a reference session table, plus 8 x 15 concurrent uses on the race build. login: 29 stored-hash classes (valid for the password, valid for another, malformed in every field incl. over-long salt) + random one-character mutations; an independent argon2 recomputation decides whether a mutated hash still verifies. " +
+			"sessions: seeded histories over {login ok, login bad, login as a user that does not exist (with the right / the default / common passwords), logout, expire by 1 ns..1 h, age a live session to 30 s..50 min left, use} against a reference session table, plus 8 x 15 concurrent uses on the race build. login: near-miss passwords for stored passwords of 1..1000 bytes (one byte longer / shorter, changed last byte, same first 8..255 bytes), six wrong-password logins started 0..25 ms after a right-password login for the same account (a verification of some tens of ms), 29 stored-hash classes (valid for the password, valid for another, malformed in every field incl. over-long salt) + random one-character mutations; an independent argon2 recomputation decides whether a mutated hash still verifies. " +
 			"cross-site: Sec-Fetch-Site in 7 forms x Origin {absent, same, foreign} x every route and OPTIONS; only 'cross-site' is judged (403, no effect). Non-trivial = distinct combination / history / hash.",
 		Assumptions: []string{"/api/log and /api/log/stream are only probed without a live session (they need the process-global logger)", "site-ness cannot be decided from Origin alone: only requests the browser itself declares cross-site are judged", "stored hashes use cheap argon2 parameters so that the sweep is fast"},
 		Plan:        c20Plan,
